@@ -15,6 +15,7 @@
 #undef private
 #undef protected
 #include "QXmppClient.h"
+#include "QXmppConfiguration.h"
 #include "QXmppMessage.h"
 #include "QXmppE2eeMetadata.h"
 #include <QDomElement>
@@ -26,7 +27,8 @@
 #include "QXmppQt5_autogen/7EM65HM6UG/moc_QXmppCarbonManager.cpp"
 
 extern "C" {
-void vp_c11_setup(QXmppClient *client, const QString *bareJid);
+void vp_c11_setup(QXmppClient *client, const QXmppConfiguration *cfg);
+void vp_c11_compose_bare(QString *out, const QString *user, const QString *domain);
 unsigned vp_c11_ndel(); void vp_c11_reset();
 unsigned vp_c11_kind(unsigned i);            // 1 = QXmppClient::injectMessage, 2 = signal emission
 void *vp_c11_target(unsigned i);             // client (inject) / sender (signal)
@@ -48,8 +50,23 @@ bool vp_qstring_eq(const QString *a, const QString *b);
 #define C11_N3 2   // children of each of those
 #endif
 #ifndef C11_STRLEN
-#define C11_STRLEN 4
+#define C11_STRLEN 6   // outer/inner 'from': 0..6 arbitrary UTF-16 units (user <= 2, '@', domain <= 3 and its look-alikes fit)
 #endif
+
+// Account identity: REAL QXmppConfiguration built with the real setters from a symbolic user (0..2 units), domain (1..3 units) and
+// resource (0..2 units); user and domain contain neither '@' nor '/'.  `bare` is the own bare JID composed by the oracle's side.
+static bool jidPartOk(const QString &s) { for (int i = 0; i < s.size(); i++) if (s.at(i) == u'@' || s.at(i) == u'/') return false; return true; }
+struct Account {
+    QXmppConfiguration cfg; QString user, domain, resource, bare;
+    void make(QXmppClient *client)
+    {
+        user = vpSymString(2); domain = vpSymStringNonEmpty(3); resource = vpSymString(2);
+        vp_assume(jidPartOk(user) && jidPartOk(domain));
+        cfg.setUser(user); cfg.setDomain(domain); cfg.setResource(resource);
+        vp_c11_compose_bare(&bare, &user, &domain);
+        vp_c11_setup(client, &cfg);
+    }
+};
 
 enum { T_MESSAGE, T_SENT, T_RECEIVED, T_FORWARDED, T_BODY, T_OTHER, T_MESSAGES, NTAG };   // NTAG as an index: empty string
 enum { NS_CARBONS, NS_FORWARD, NS_CLIENT, NS_OTHER, NS_INHERIT, NNS };
@@ -138,15 +155,15 @@ static void oracle(const Tree &t, const QString &bare, bool ret, bool v1, void *
             vp_assert(vp_c11_kind(0) == 1 && vp_c11_target(0) == client, "C11 V2 delivers by injecting into its client");
         }
     }
-    // coverage: the harness end (witness) is reachable only through a delivery, so a pass is never vacuous w.r.t. acceptance
-    vp_assume(nd == 1);
+    // coverage: with a 'from' attribute the harness end (witness) is reachable only through a delivery, so a pass is never vacuous
+    // w.r.t. acceptance; without the attribute nothing can be delivered (the own bare JID is never empty)
+    if (t.hasFrom) vp_assume(nd == 1);
 }
 
 static void run_v2(bool withFrom)
 {
     QXmppClient *client = reinterpret_cast<QXmppClient *>(clientStorage);
-    QString bare = vpSymString(C11_STRLEN);
-    vp_c11_setup(client, &bare);
+    Account acct; acct.make(client); const QString &bare = acct.bare;
     VpRaw<QXmppCarbonManagerV2> mgr; vp_qobject_construct(mgr.p(), nullptr); mgr->m_client = client;
     Tree t; t.build(withFrom);
     std::optional<QXmppE2eeMetadata> e2ee;
@@ -157,8 +174,7 @@ static void run_v2(bool withFrom)
 static void run_v1(bool withFrom)
 {
     QXmppClient *client = reinterpret_cast<QXmppClient *>(clientStorage);
-    QString bare = vpSymString(C11_STRLEN);
-    vp_c11_setup(client, &bare);
+    Account acct; acct.make(client); const QString &bare = acct.bare;
     VpRaw<QXmppCarbonManager> mgr; vp_qobject_construct(mgr.p(), nullptr); mgr->m_client = client;
     // calibrate the signal indices through the real moc code
     int sentIdx, recvIdx;
